@@ -67,7 +67,7 @@ func runFixed(c *core.Ctx, i int) {
 		runMonthCase(c, nil, 0)
 		return
 	}
-	r, err := newRunOpt(c, 10000, i == 19)
+	r, err := newRunOpt(c, 10000, i == 19 || i == 21) // one-worker scanner pool: see env.oneScanner
 	if err != nil {
 		c.Fail("harness-setup", err.Error())
 		return
